@@ -233,16 +233,26 @@ def r10_serde_dispatch(ctx):
     base, sub = pair
     other = next(q for q in sorted(repo.classes) if q not in repo.class_mro(sub) and base not in repo.class_mro(q))
     n = 0
+    # the registry is filled by the code's own register() (whatever it stores per type), with the resolver of dotted names modelled
+    ser = ModelFn("user_ser", lambda run, a, k, nn, f: App("user_ser", a, uid=None))
+    reg = repo.func("cascade.executor.serde.SerdeRegistry.register")
+    ctx.analysed(reg.qual)
+    rps = [p for p in Interp(repo, call_models={"cascade.low.func.resolve_callable": lambda run, a, k, nn, f: ser}).explore(
+        reg, env={"cascade.executor.serde.SerdeRegistry.serde": {}}, args={"cls": ClassRef("cascade.executor.serde.SerdeRegistry"), "t": ClassRef(base), "ser": "user.ser", "des": "user.des"})
+        if p.exit[0] == "return"]
+    registry = rps[0].heap.get("cascade.executor.serde.SerdeRegistry.serde") if len(rps) == 1 else None
+    if not isinstance(registry, dict) or len(registry) != 1:
+        ctx.undecided("C01.R10", loc(reg), f"SerdeRegistry.register on the model type does not leave a one-entry registry: {vkey(registry)[:100]}")
+        return
     for label, vcls, want_custom in (("the registered type itself", base, True), ("a subclass of the registered type", sub, False), ("an unrelated type", other, False)):
         v = Obj(vcls, {}, name="VALUE")
-        ser = ModelFn("user_ser", lambda run, a, k, nn, f: App("user_ser", a, uid=None))
-        env = {"cascade.executor.serde.SerdeRegistry.serde": {ClassRef(base): (ser, "user.des")}}
+        env = {"cascade.executor.serde.SerdeRegistry.serde": registry}
         ps = Interp(repo).explore(fi, env=env, args={"v": v, "annotation": "Any"})
         ctx.evals(len(ps))
         for p in ps:
             n += 1
             rv = p.exit[1] if p.exit[0] == "return" else None
-            custom = isinstance(rv, tuple) and len(rv) == 2 and rv[1] == "user.des"
+            custom = isinstance(rv, tuple) and len(rv) == 2 and rv[1] == "user.des" and isinstance(rv[0], App) and rv[0].fname == "user_ser"
             pickled = isinstance(rv, tuple) and len(rv) == 2 and rv[1] == "cloudpickle.loads" and isinstance(rv[0], App) and "dumps" in rv[0].fname and rv[0].args and getattr(rv[0].args[0], "name", None) == "VALUE"
             if want_custom and not custom:
                 ctx.violation("C01.R10", fi.qual, loc(fi), "registered type uses its encoder", f"value of {label}: ser_output gives {vkey(rv)[:120]}; expected the registered pair")
